@@ -120,6 +120,24 @@ func (g *gen) handle(t *sqlh.TableDesc) sqlh.Handle {
 	return h
 }
 
+// retypeOrCustom: another Go type for the same underlying value; in a quarter of the cases a named type of
+// the same kind whose driver.Valuer serializes to another value (sqlh.Shifted, sqlh.Loud).
+func (g *gen) retypeOrCustom(v sqlh.GV) sqlh.GV {
+	if g.R.Chance(25) {
+		u := v
+		if u.T == "ptr" {
+			u = *u.Elem
+		}
+		switch u.T {
+		case "int", "int8", "int16", "int32", "int64", "uint", "uint8", "uint16", "uint32", "uint64", "Kind":
+			return sqlh.GV{T: "Shifted", Z: u.Z}
+		case "string", "Label":
+			return sqlh.GV{T: "Loud", S: u.S}
+		}
+	}
+	return g.Retype(v)
+}
+
 func copyFilter(f sqlh.Filter) sqlh.Filter {
 	o := sqlh.Filter{}
 	for k, v := range f {
@@ -178,7 +196,7 @@ func (g *gen) readFilter(t *sqlh.TableDesc, h sqlh.Handle) (sqlh.Filter, string)
 	case k < 90:
 		mode = "retyped"
 		c := lk[g.R.Intn(len(lk))]
-		f[c] = g.Retype(f[c])
+		f[c] = g.retypeOrCustom(f[c])
 	case k < 94:
 		mode = "unknown-column"
 		f["nope"] = sqlh.GV{T: "int64", Z: 1}
